@@ -54,9 +54,29 @@ def lib_sources():
     return out
 
 
+def external_sources(errors):
+    """third-party sources a plug-in translates (a plug-in may export `external_sources(gm) -> [(label, path)]`,
+    label `extern/<crate>-<version>/src/<file>.rs`): listed and classified like the workspace's own files"""
+    out = []
+    for name in sorted(sys.modules):
+        mod = sys.modules[name]
+        f = getattr(mod, "external_sources", None) if name.startswith("gen_") else None
+        if f is None:
+            continue
+        try:
+            out.extend(f(gm))
+        except Exception as e:
+            errors["external_sources:" + name] = "%s: %s" % (type(e).__name__, e)
+    return out
+
+
 def is_test(attrs):
     txt = " ".join(str(a) for a in (attrs or []))
-    return "cfg(test)" in txt or "#[test]" in txt or txt.strip() == "test"
+    if "cfg(test)" in txt or "#[test]" in txt or txt.strip() == "test":
+        return True
+    # `#[cfg(all(feature = "nightly", test))] mod benches` (utf8parse): compiled for tests only
+    import re
+    return re.search(r"cfg\s*\(\s*all\s*\([^\]]*\btest\b", txt) is not None
 
 
 def walk_fns(items, ctx=None, test=False):
@@ -121,8 +141,8 @@ def main(argv):
         for fn in inl:
             inlined.setdefault(fp(fn), []).append(g)
     rows = []
-    for rel in lib_sources():
-        src = open(os.path.join(REPO, rel), encoding="utf-8").read()
+    for rel, path in [(r, os.path.join(REPO, r)) for r in lib_sources()] + external_sources(errors):
+        src = open(path, encoding="utf-8").read()
         fsha = sha(src)
         try:
             items = parse_file(src)
